@@ -365,6 +365,16 @@ impl PhysicalOperator for MemoryTableExec {
     }
 
     fn output_partitions(&self) -> usize {
+        #[cfg(qe_verif)]
+        if let Some(n) = crate::verif::knobs::usize("scan.partitions") {
+            // the simulator chooses the worker count this scan would have seen
+            let total_rows: usize = self.batches.iter().map(|b| b.num_rows()).sum();
+            return if total_rows < 1000 {
+                1
+            } else {
+                n.min(self.batches.len()).max(1)
+            };
+        }
         // Use rayon to determine the number of CPU cores for parallel execution
         // For small tables, use fewer partitions to avoid overhead
         let total_rows: usize = self.batches.iter().map(|b| b.num_rows()).sum();
